@@ -59,24 +59,29 @@ def doc_tokens(top):
     out = ["R - - 0 -"]
     n = [0]
 
-    def walk(node, parent, dflt=""):
+    def walk(node, parent, dflt="", scope=DOC_NS):
         n[0] += 1
         me = n[0]
         k = node[0]
         if k == "E":
-            # a default namespace declaration (written as the pseudo attribute "xmlns") is not an attribute node; it
-            # gives the unprefixed element names below it their namespace (never the attribute names)
+            # namespace declarations (written as the pseudo attributes "xmlns" / "xmlns:p") are not attribute nodes; the
+            # default one gives the unprefixed element names below it their namespace (never the attribute names), a
+            # prefixed one re-binds the prefix for the element, its attributes and everything below
             for an, av in node[2]:
                 if an == "xmlns":
                     dflt = av
-            out.append("E %s - %d %s" % (enc(node[1]), parent, enc(uri_of(node[1]) if ":" in node[1] else dflt)))
+                elif an.startswith("xmlns:"):
+                    scope = dict(scope)
+                    scope[an[6:]] = av
+            uri = lambda q: scope.get(q.split(":")[0], "") if ":" in q else ""
+            out.append("E %s - %d %s" % (enc(node[1]), parent, enc(uri(node[1]) if ":" in node[1] else dflt)))
             for an, av in node[2]:
-                if an == "xmlns":
+                if an == "xmlns" or an.startswith("xmlns:"):
                     continue
                 n[0] += 1
-                out.append("A %s %s %d %s" % (enc(an), enc(av), me, enc(uri_of(an))))
+                out.append("A %s %s %d %s" % (enc(an), enc(av), me, enc(uri(an))))
             for c in node[3]:
-                walk(c, me, dflt)
+                walk(c, me, dflt, scope)
         elif k == "T":
             out.append("T - %s %d -" % (enc(node[1]), parent))
         elif k == "C":
@@ -98,13 +103,17 @@ AXES = ["child", "attribute", "descendant", "descendant-or-self", "self", "paren
 
 def test_txt(t):
     if isinstance(t, tuple):
+        if t[0] == "piname":
+            return "processing-instruction('%s')" % t[1]
+        if t[0] == "nsstar":
+            return t[1] + ":*"
         return t[1]
     return {"star": "*", "text": "text()", "node": "node()", "comment": "comment()", "pi": "processing-instruction()"}[t]
 
 
 def test_tok(t):
     if isinstance(t, tuple):
-        return "( name %s )" % enc(t[1])
+        return "( %s %s )" % (t[0], enc(t[1]))
     return t
 
 
@@ -542,6 +551,10 @@ class Gen:
                 # default namespace: the unprefixed elements from here down are in urn:d (or, nested, in none again)
                 attrs.append(("xmlns", r.choice(["urn:d", "urn:d", "urn:p", ""])))
                 self.features.add("doc-default-namespace")
+            if self.ns and depth > 0 and r.chance(1, 4 if not getattr(self, "rebind", False) else 2):
+                # the same prefix bound to another URI at this depth (and possibly back again further down)
+                attrs.append(("xmlns:" + r.choice(["p", "p", "q"]), r.choice(["urn:o", "urn:o", "urn:p", "urn:d"])))
+                self.features.add("doc-prefix-rebound")
             if self.xmlspace and r.chance(1, 3):
                 # xml:space: "preserve" keeps whitespace-only text below it from xsl:strip-space, a nearer "default" cancels that
                 attrs.append(("xml:space", r.choice(["preserve", "preserve", "default"])))
@@ -851,7 +864,7 @@ class Gen:
     def ns_avt(self):
         """value of a namespace= attribute (XSLT 7.1.2 / 7.1.3): a literal URI, the empty string, or computed"""
         r = self.r
-        return r.weighted([([("l", "urn:q")], 4), ([("l", "urn:p")], 3), ([("l", "")], 1),
+        return r.weighted([([("l", "urn:q")], 4), ([("l", "urn:p")], 3), ([("l", "urn:o")], 2), ([("l", "")], 1),
                            ([("l", "urn:"), ("e", ("fn", "name", []))], 2), ([("e", ("fn", "substring", [("lit", "urn:q"), ("num", 1), ("fn", "position", [])]))], 1)])
 
     def attr_instr(self, env, depth, late=False):
@@ -1039,8 +1052,12 @@ class Gen:
     # ---- stylesheets
     def gen_pattern(self):
         r = self.r
-        c = r.weighted([("name", 6), ("star", 2), ("text", 2), ("attr", 2), ("two", 3), ("pred", 2), ("node", 1), ("root", 1), ("abs", 1), ("cpi", 1)])
+        c = r.weighted([("name", 6), ("star", 2), ("text", 2), ("attr", 2), ("two", 3), ("pred", 2), ("node", 1), ("root", 1), ("abs", 1), ("cpi", 1), ("piname", 1), ("nsstar", 1 if self.ns else 0)])
         ctx = ("ctx",)
+        if c == "piname":
+            return ("step", ctx, "child", ("piname", r.choice(["p1", "pp"])), [])
+        if c == "nsstar":
+            return ("step", ctx, r.weighted([("child", 3), ("attribute", 1)]), ("nsstar", "p"), [])
         if self.keys and not getattr(self, "in_key_decl", False) and r.chance(1, 6):
             kp = ("fn", "key", [("lit", "k0"), ("lit", r.choice(VALUES + ENAMES))])
             return kp if r.chance(1, 2) else ("step", kp, "child", r.choice([("name", r.choice(ENAMES)), "star", "text"]), [])
@@ -1167,6 +1184,87 @@ class Gen:
             t["body"] = t["body"][:npar] + ([] if r.chance(1, 2) else []) + t["body"][npar:] + tail
         self.features.add("scope-clash")
 
+
+    def prio_ladder(self, templates):
+        """CONFLICT RESOLUTION (XSLT 5.5) for every pattern kind: per node kind, rules whose patterns all match the same
+        nodes and differ in default priority only -- processing-instruction('t') and QName tests 0, NCName:* -0.25, the other
+        single node tests -0.5, every other pattern 0.5 -- in an order in which a later rule of lower priority would win if
+        one default priority were computed too low (and, with the order reversed, too high).  All in mode "pr"; the root
+        rule sends every node and attribute of the document through that mode."""
+        r = self.r
+        ctx = ("ctx",)
+        T = ("fn", "true", [])
+
+        def st(ax, t, preds=()):
+            return ("step", ctx, ax, t, list(preds))
+
+        def two(ax, t):
+            return ("step", ("step", ctx, "child", "star", []), ax, t, [])
+        nm = r.choice(ENAMES)
+        an = r.choice(ANAMES)
+        pit = r.choice(["p1", "pp"])
+        ladders = {
+            "E": [(st("child", ("name", nm), [T]), 2), (two("child", ("name", nm)), 2), (st("child", "star", [T]), 2),
+                  (st("child", ("name", nm)), 0), (st("child", "star"), -2), (st("child", "node"), -2)],
+            "A": [(st("attribute", ("name", an), [T]), 2), (two("attribute", ("name", an)), 2), (st("attribute", ("name", an)), 0),
+                  (st("attribute", "star"), -2)],
+            "T": [(st("child", "text", [T]), 2), (two("child", "text"), 2), (st("child", "text"), -2), (st("child", "node"), -2)],
+            "C": [(st("child", "comment", [T]), 2), (st("child", "comment"), -2), (st("child", "node"), -2)],
+            "P": [(st("child", "pi", [T]), 2), (two("child", ("piname", pit)), 2), (st("child", ("piname", pit)), 0),
+                  (st("child", "pi"), -2), (st("child", "node"), -2)],
+        }
+        if self.ns:
+            ladders["E"] += [(st("child", ("name", "p:" + ENAMES[0])), 0), (st("child", ("nsstar", "p")), -1)]
+            ladders["A"] += [(st("attribute", ("name", "p:x")), 0), (st("attribute", ("nsstar", "p")), -1)]
+        for kind in r.shuffle(["E", "A", "T", "C", "P", "P"])[: r.range(2, 4)]:
+            lad = r.shuffle(ladders[kind])[: r.range(2, 4)]
+            # mostly descending priority (later = lower), sometimes ascending, sometimes as drawn
+            o = r.weighted([("desc", 5), ("asc", 2), ("any", 2)])
+            if o != "any":
+                lad = sorted(lad, key=lambda x: -x[1] if o == "desc" else x[1])
+            for j, (pat, q) in enumerate(lad):
+                templates.append({"pats": [pat], "name": None, "mode": "pr", "prio": None,
+                                  "body": [{"k": "text", "s": "%s%d%s;" % (kind, j, "abcdefgh"[(q + 2)])}]})
+        roots = [t for t in templates if t["pats"] == [("root",)] and t["mode"] is None]
+        if not roots:
+            roots = [{"pats": [("root",)], "name": None, "mode": None, "prio": None, "body": []}]
+            templates.append(roots[0])
+        sel = ("bin", "|", ("step", ctx, "descendant", "node", []), ("step", ("step", ctx, "descendant", "star", []), "attribute", "star", []))
+        roots[0]["body"].append({"k": "apply", "select": sel, "mode": "pr", "sorts": [], "params": []})
+        self.features.add("priority-ladder")
+
+    def ns_rebind(self, templates):
+        """SAME PREFIX, DIFFERENT URIS: the documents re-bind p / q at different depths (`self.rebind`); their elements
+        are copied -- deep by xsl:copy-of, node by node by an identity rule with xsl:copy -- into result elements that
+        already bind those prefixes to each of the URIs.  Names are compared expanded."""
+        r = self.r
+        ctx = ("ctx",)
+        self.ns = True
+        self.rebind = True
+        templates.append({"pats": [("step", ctx, "child", "star", [])], "name": None, "mode": "cp", "prio": None,
+                          "body": [{"k": "copy", "body": [{"k": "copyof", "e": ("step", ctx, "attribute", "star", [])},
+                                                          {"k": "apply", "select": None, "mode": "cp", "sorts": [], "params": []}]}]})
+        roots = [t for t in templates if t["pats"] == [("root",)] and t["mode"] is None]
+        if not roots:
+            roots = [{"pats": [("root",)], "name": None, "mode": None, "prio": None, "body": []}]
+            templates.append(roots[0])
+        for _ in range(r.range(1, 3)):
+            sel = r.choice([("step", ctx, "descendant", "star", []),
+                            ("step", ("step", ctx, "descendant", "star", []), "child", "star", []),
+                            ("step", ctx, "descendant", ("name", r.choice(ENAMES)), []),
+                            ("step", ("step", ctx, "descendant", "star", [("step", ctx, "attribute", "star", [])]), "child", "star", [])])
+            inner = [{"k": "copyof", "e": sel}] if r.chance(1, 2) else [{"k": "apply", "select": sel, "mode": "cp", "sorts": [], "params": []}]
+            w = r.weighted([("lre-p", 3), ("el-o", 3), ("el-qp", 2), ("out", 2), ("el-d", 1)])
+            if w == "lre-p":
+                wrap = {"k": "lre", "name": "p:item", "attrs": [], "body": inner}
+            elif w == "out":
+                wrap = {"k": "lre", "name": "out", "attrs": [], "body": inner}
+            else:
+                nm, ns = {"el-o": ("p:el", "urn:o"), "el-qp": ("q:el", "urn:p"), "el-d": ("el", "urn:d")}[w]
+                wrap = {"k": "element", "name": [("l", nm)], "ns": [("l", ns)], "body": inner}
+            roots[0]["body"].append(wrap)
+        self.features.add("prefix-rebound-copy")
+
     def gen_stylesheet(self):
         r = self.r
         self.varctr = 0
@@ -1264,6 +1362,10 @@ class Gen:
         if not self.fragment and r.chance(1, 3):
             self.scope_clash(globs, genv, attrsets, templates)
         templates = r.shuffle(templates)
+        if not self.fragment and r.chance(1, 4):
+            self.prio_ladder(templates)
+        if not self.fragment and r.chance(1, 5):
+            self.ns_rebind(templates)
         modules = None
         if self.imports:
             modules, prec = plan_modules(r)
